@@ -63,3 +63,18 @@ def reply_set_of_enum(L, enum_name):
     if enum_name.endswith("::Ack"):
         out = {(0x80, 0x00)}
     return out
+
+
+def result_codes():
+    """{code: message} of the specification's result-code table (coq/spec/Spec.v, `result_codes`), read from the source text"""
+    if "rc" in _cache:
+        return _cache["rc"]
+    import os
+    txt = open(os.path.join(vlib.COQ, "spec", "Spec.v")).read()
+    i = txt.index("Definition result_codes")
+    body = txt[i:txt.index("]%string.", i)]
+    res = {int(c): m.replace('""', '"') for c, m in re.findall(r'\(\s*(\d+)\s*,\s*"((?:[^"]|"")*)"\s*\)', body)}
+    if len(res) < 70:
+        raise vlib.MachineryError("could not read the specification's result codes (%d)" % len(res))
+    _cache["rc"] = res
+    return res
